@@ -298,6 +298,11 @@ def finish(
             rec = dict(case=r["name"], key=fullkey, model=c["model"], reproduced=c.get("reproduced"), detail=c.get("detail"), where=c.get("where"))
             cex_records.append(rec)
             if not c.get("reproduced"):
+                if (r.get("meta") or {}).get("solver_finds_candidates_real_code_confirms"):
+                    # the symbolic obligation only proposes candidates (e.g. colliding names); whether they are a defect is
+                    # decided by running the real code on them -- a candidate that the real code handles is no finding
+                    rec["dismissed_by_real_code"] = True
+                    continue
                 harness_errors.append("%s: counterexample %s did not reproduce natively: %s" % (r["name"], c["kind"], json.dumps(c.get("native"), default=repr)[:400]))
                 continue
             e = match_known(known, fullkey)
